@@ -29,7 +29,10 @@ SETTINGS = [
     ("ts", ["ThompsonSampling", {}], "binary"),
     ("rnd", ["Random", {}], "real"),
 ]
-REWARDS = {"real": [-1.5, 0, 2, 1e6], "nonneg": [0, 1e-9, 1, 3], "binary": [0, 1]}
+REWARDS = {"real": [-1.5, 0, 2, 1e6], "nonneg": [0, 1e-9, 1, 3], "binary": [0, 1],
+           "int8": [100, 0, 90], "int32": [2 ** 30, 0, 2 ** 30 + 5]}
+# rewards handed over as narrow integer arrays whose per-arm totals leave the range of the dtype
+NARROW = [("eg0", "int8"), ("eg0", "int32"), ("ucb1", "int8"), ("sm1", "int8"), ("pop", "int8"), ("pop", "int32")]
 LABELS = {"int": ([0, 2], 1), "str": (["b", ""], "c")}          # falsy labels (0, "") included on purpose
 
 
@@ -60,7 +63,12 @@ def shards(tier, seed):
             for part in range(parts):
                 out.append({"setting": name, "lp": lp, "rk": rk, "labels": labels, "part": [part, parts],
                             "depth": 4 if tier == "quick" else 5, "seed": 21 + seed})
-    out.sort(key=lambda s: {"real": 0, "nonneg": 1, "binary": 2}[s["rk"]] + (s["setting"] == "rnd"))
+    for name, dt in NARROW:
+        lp = [x[1] for x in SETTINGS if x[0] == name][0]
+        for labels in LABELS:
+            out.append({"setting": name + "/" + dt, "lp": lp, "rk": dt, "labels": labels, "part": [0, 1], "depth": 3,
+                        "seed": 21 + seed, "dtype": dt})
+    out.sort(key=lambda s: {"real": 0, "nonneg": 1, "binary": 2}.get(s["rk"], 3) + (s["setting"] == "rnd"))
     return out
 
 
@@ -188,7 +196,10 @@ def check_state(mab, ref, kind, par, max_arms):
                 msgs.append("expectations %r, reference %r (history statistics %r, N=%d)" % (
                     {a: float(v) for a, v in got.items()}, want,
                     {a: (str(s), c) for a, (s, c) in ref["stat"].items()}, ref["N"]))
-    out = copy.deepcopy(mab).predict_expectations()
+    try:
+        out = copy.deepcopy(mab).predict_expectations()
+    except Exception as e:                                    # noqa: BLE001
+        return msgs + ["predict_expectations() raised %s: %s on a fitted bandit" % (type(e).__name__, str(e)[:100])]
     ops.COUNTERS["observations"] += 1
     want = sampler_replay(kind, par, mab)
     if not isinstance(out, dict) or list(out) != arms or any(not (float(out[a]) == float(want[a])) for a in arms):
@@ -196,13 +207,13 @@ def check_state(mab, ref, kind, par, max_arms):
     return msgs
 
 
-def enabled(arms, removed, rewards, new):
+def enabled(arms, removed, rewards, new, dtype=None):
     out = []
     singles = [([a], [r]) for a in arms for r in rewards]
     pairs = [([a, b], [rewards[-1], rewards[0]]) for a in arms for b in arms]
     for kind in ("fit", "partial_fit"):
         for d, r in singles + pairs:
-            out.append([kind, d, r, None])
+            out.append([kind, d, r, None] + ([{"r": dtype}] if dtype else []))
     if len(arms) < 3:
         for x in [new] + removed:
             if x not in arms:
@@ -229,7 +240,7 @@ def run_shard(shard):
     for depth in range(shard["depth"]):
         nxt = []
         for mab, ref, hist in frontier:
-            for iop, op in enumerate(enabled(list(mab.arms), ref["removed"], rewards, new)):
+            for iop, op in enumerate(enabled(list(mab.arms), ref["removed"], rewards, new, shard.get("dtype"))):
                 if depth == 0 and iop % parts != part:
                     continue
                 m2 = copy.deepcopy(mab)
